@@ -68,6 +68,8 @@ const Row kRows[] = {
   {OP_T_ACCESSORS, {"t.accessors", C_TAN, A_NONE, 0, true, false, false}},
   {OP_T_STREAM, {"os<<t", C_TAN, A_NONE, 0, true, false, false}},
   {OP_T_HOLD, {"t.held-results", C_TAN, A_TAN, 0, true, false, true}},
+  {OP_T_DATAPTR, {"t.data()", C_TAN, A_NONE, 0, true, false, false}},
+  {OP_T_CONSTRUCT, {"t.construct", C_TAN, A_NONE, 0, true, false, false}},
 
   {OP_IDENTITY, {"Identity", C_STATIC, A_NONE, 0, true, false, true}},
   {OP_ZERO, {"Zero", C_STATIC, A_NONE, 0, true, false, true}},
